@@ -272,8 +272,8 @@ def c15(pid, tier, t0):
     res = nv.run_shards(exe, ["tier=" + tier, "deadline=%d" % dl(tier)], nv.NCPU, dl(tier) + 120)
     nv.conformance(res)
     return nv.finish(pid, tier, t0, res, {
-        "rule": "patterns {a, ^$, b$, .} x {g, g!, v} x ranges {none, %, 2,3, 2,$} x 27 command lists (d, -1d, +1d, .,+1d, s/a/b/, s/a/ab/g, pu a, 0pu a, i|x|., a|x|., c|x|., -1a|a|., d|pu, s/a/c/|-1d, "
-                "nested g/b/d, nested g/a/s/a/b/, y b|pu b, ka|'ad, two-line blocks for c/i/a/.,+1c, the always-rejected 'zd and +9d, and +1s/b/a/, +1s/a/b/, -1s/b/a/ which change whether a neighbouring line matches) x every buffer of 1..buffer_lines lines over the contents {a, b, ab, empty}; distinct_nontrivial = globals that change the buffer",
+        "rule": "patterns {a, ^$, b$, .} x {g, g!, v} x ranges {none, %, 2,3, 2,$} x 30 command lists (d, -1d, +1d, .,+1d, s/a/b/, s/a/ab/g, pu a, 0pu a, i|x|., a|x|., c|x|., -1a|a|., d|pu, s/a/c/|-1d, "
+                "nested g/b/d, nested g/a/s/a/b/, y b|pu b, ka|'ad, two-line blocks for c/i/a/.,+1c, the always-rejected 'zd and +9d, and +1s/b/a/, +1s/a/b/, -1s/b/a/ which change whether a neighbouring line matches, -2,-1d / -2,-1s/$/x/ / -1,.d which move the lines still to be visited above the scan position) x every buffer of 1..buffer_lines lines over the contents {a, b, ab, empty}; distinct_nontrivial = globals that change the buffer",
         "depth_bound": res.stats.get("buffer_lines"),
         "explanation": "real :g through ex_command on an initialised editor (AddressSanitizer build); reference keeps line identities: the lines of the range that still exist are visited once in order, "
                        "inserted lines never; the number of executions is observed through the text blocks the command list consumes; one :u must restore the pre-global text; in a second pass two further globals (2,3v/zzz/s/$/!/ and %v/zzz/s/$/!/) run on the state the first one left behind and must visit exactly their own lines",
